@@ -29,10 +29,10 @@ CONSTANTS AllHosts,     \* universe of advertised host addresses
           Timed
 
 VARIABLES now, socks, cur, closing, closedF, secureF, shutdownF, lock, ref, tasks,
-          hosts, descr, failed, nxUsed, callers, attempts, userClosed, subsOk
+          hosts, descr, failed, nxUsed, callers, attempts, userClosed, subsOk, authEnded
 
 cvars == <<socks, cur, closing, closedF, secureF, shutdownF, lock, ref, tasks,
-           hosts, descr, failed, nxUsed, callers, attempts, userClosed, subsOk>>
+           hosts, descr, failed, nxUsed, callers, attempts, userClosed, subsOk, authEnded>>
 vars == <<now, cvars>>
 
 TPS == 4096                                   \* ticks per second
@@ -71,11 +71,11 @@ HeldSet == {s \in Socks : ~socks[s].cc}
 \* the controller-owned state as one record
 St == [socks |-> socks, cur |-> cur, closing |-> closing, closedF |-> closedF, secureF |-> secureF,
        lock |-> lock, ref |-> ref, tasks |-> tasks, hosts |-> hosts, failed |-> failed,
-       nxUsed |-> nxUsed, callers |-> callers, attempts |-> attempts, userClosed |-> userClosed, subsOk |-> subsOk]
+       nxUsed |-> nxUsed, callers |-> callers, attempts |-> attempts, userClosed |-> userClosed, subsOk |-> subsOk, authEnded |-> authEnded]
 Commit(S) == /\ socks' = S.socks /\ cur' = S.cur /\ closing' = S.closing /\ closedF' = S.closedF
              /\ secureF' = S.secureF /\ lock' = S.lock /\ ref' = S.ref /\ tasks' = S.tasks
              /\ hosts' = S.hosts /\ failed' = S.failed /\ nxUsed' = S.nxUsed /\ callers' = S.callers
-             /\ attempts' = S.attempts /\ userClosed' = S.userClosed /\ subsOk' = S.subsOk
+             /\ attempts' = S.attempts /\ userClosed' = S.userClosed /\ subsOk' = S.subsOk /\ authEnded' = S.authEnded
 
 Connected(S) == S.cur # 0 /\ ~S.closedF /\ S.secureF           \* SecureHomeKitConnection.is_connected
 
@@ -110,7 +110,7 @@ StartConnector(S) ==
 \* A close() that is still waiting for the connector when such a trigger arrives is superseded by it.
 StartReconnecting(S) ==
     IF Connected(S) THEN S
-    ELSE StartConnector([S EXCEPT !.closing = FALSE, !.closedF = FALSE,
+    ELSE StartConnector([S EXCEPT !.closing = FALSE, !.closedF = FALSE, !.authEnded = FALSE,
                                   !.userClosed = IF \E c \in Callers : S.callers[c].kind = "close" /\ S.callers[c].pc = "wait"
                                                  THEN "either" ELSE "open",
                                   !.callers = [c \in Callers |->
@@ -148,7 +148,7 @@ SleepNext(S, t) ==   \* back-off: interval = min(60, 1.5 * interval); sleep
 Fail(S, t, kind) ==
     \* every failure of the secure-session setup drops the transport (see fix in /repo)
     LET S1 == Drop(S) IN
-    CASE kind = "auth"    -> Finish([S1 EXCEPT !.lock = FALSE], t, "auth")
+    CASE kind = "auth"    -> Finish([S1 EXCEPT !.lock = FALSE, !.authEnded = TRUE], t, "auth")
       [] kind = "wrongid" ->
             LET h == S.tasks[t].host
                 f == S1.failed \cup {h}
@@ -253,7 +253,7 @@ TaskTimer(t) ==
                                              [] OTHER -> "tmo30",
                               ![t].host = h]
     /\ UNCHANGED <<now, socks, cur, closing, closedF, secureF, shutdownF, lock, ref, hosts, descr, failed,
-                   nxUsed, callers, attempts, userClosed, subsOk>>
+                   nxUsed, callers, attempts, userClosed, subsOk, authEnded>>
 
 \* ------------------------------------------------------------------ network / accessory (environment)
 \* TCP outcome of the pending start_connection call
@@ -261,33 +261,33 @@ TcpRefused(t, h) ==
     /\ Alive(t) /\ tasks[t].pc = "tcp" /\ tasks[t].wake = "none" /\ h \in tasks[t].rem
     /\ tasks' = [tasks EXCEPT ![t].wake = "refused", ![t].host = h]
     /\ UNCHANGED <<now, socks, cur, closing, closedF, secureF, shutdownF, lock, ref, hosts, descr, failed,
-                   nxUsed, callers, attempts, userClosed, subsOk>>
+                   nxUsed, callers, attempts, userClosed, subsOk, authEnded>>
 TcpOk(t, h) ==
     /\ Alive(t) /\ tasks[t].pc = "tcp" /\ tasks[t].wake = "none" /\ h \in tasks[t].rem
     /\ MaxSock > 0 => Len(socks) < MaxSock
     /\ tasks' = [tasks EXCEPT ![t].wake = "ok", ![t].host = h]
     /\ UNCHANGED <<now, socks, cur, closing, closedF, secureF, shutdownF, lock, ref, hosts, descr, failed,
-                   nxUsed, callers, attempts, userClosed, subsOk>>
+                   nxUsed, callers, attempts, userClosed, subsOk, authEnded>>
 
 \* accessory reads the next request
 AccRecv(s) ==
     /\ s \in Socks /\ socks[s].c2a # << >> /\ socks[s].pclose = "no"
     /\ socks' = [socks EXCEPT ![s].c2a = Tail(@), ![s].accPend = Append(@, Head(socks[s].c2a))]
     /\ UNCHANGED <<now, cur, closing, closedF, secureF, shutdownF, lock, ref, tasks, hosts, descr, failed,
-                   nxUsed, callers, attempts, userClosed, subsOk>>
+                   nxUsed, callers, attempts, userClosed, subsOk, authEnded>>
 ReplyKinds == {"r_ok", "r_wrongid", "r_auth", "r_generic"}
 AccReply(s, kind) ==
     /\ s \in Socks /\ socks[s].accPend # << >> /\ socks[s].pclose = "no" /\ kind \in ReplyKinds
     /\ kind = "r_wrongid" => Head(socks[s].accPend) = "m1"      \* only M2 carries the accessory identifier
     /\ socks' = [socks EXCEPT ![s].a2c = Append(@, kind), ![s].accPend = Tail(@)]
     /\ UNCHANGED <<now, cur, closing, closedF, secureF, shutdownF, lock, ref, tasks, hosts, descr, failed,
-                   nxUsed, callers, attempts, userClosed, subsOk>>
+                   nxUsed, callers, attempts, userClosed, subsOk, authEnded>>
 \* peer closes: orderly (FIN) or abortive (reset)
 PeerClose(s, how) ==
     /\ s \in Socks /\ socks[s].pclose = "no" /\ how \in {"fin", "rst"}
     /\ socks' = [socks EXCEPT ![s].pclose = how, ![s].a2c = Append(@, how)]
     /\ UNCHANGED <<now, cur, closing, closedF, secureF, shutdownF, lock, ref, tasks, hosts, descr, failed,
-                   nxUsed, callers, attempts, userClosed, subsOk>>
+                   nxUsed, callers, attempts, userClosed, subsOk, authEnded>>
 
 \* the controller's transport reads from socket s (only while it is registered: not closing)
 Awaiting(tk, t, s) == AliveT(tk, t) /\ tk[t].pc \in {"v1", "v3", "sub"} /\ tk[t].sock = s /\ tk[t].wake = "none"
@@ -311,13 +311,13 @@ CtrlRead(s) ==
                       /\ socks' = sk
                       /\ tasks' = tasks
     /\ UNCHANGED <<now, cur, closing, closedF, secureF, shutdownF, lock, ref, hosts, descr, failed,
-                   nxUsed, callers, attempts, userClosed, subsOk>>
+                   nxUsed, callers, attempts, userClosed, subsOk, authEnded>>
 
 \* asyncio calls protocol.connection_lost for socket s
 LostCallback(s) ==
     /\ s \in Socks /\ socks[s].cc /\ ~socks[s].lostRun
     /\ LET S0 == [St EXCEPT !.socks[s] = DeadSock]        \* nothing about a finished socket matters any more
-           stale == S0.cur # 0 /\ S0.cur # s          \* a newer transport is installed: ignore (fix in /repo)
+           stale == S0.cur # s      \* not the connection's current transport (a newer one, or dropped on purpose): ignore
            S1 == IF stale THEN S0
                  ELSE LET D == Drop(S0) IN
                       IF D.closing THEN [D EXCEPT !.closedF = TRUE] ELSE StartConnector(D)
@@ -357,25 +357,25 @@ CallerResume(c) ==
                   [] OTHER -> IF callers[c].kind = "pens" /\ ~Connected(St) THEN "disconnected" ELSE "ok"
        IN callers' = [callers EXCEPT ![c] = Returned(callers[c].kind, r)]
     /\ UNCHANGED <<now, socks, cur, closing, closedF, secureF, shutdownF, lock, ref, tasks, hosts, descr, failed,
-                   nxUsed, attempts, userClosed, subsOk>>
+                   nxUsed, attempts, userClosed, subsOk, authEnded>>
 CallerTimerDue(c) == callers[c].pc = "wait" /\ callers[c].kind = "pens" /\ callers[c].wake = "none"
 CallerTimer(c) ==
     /\ CallerTimerDue(c)
     /\ Timed => now = callers[c].dl
     /\ callers' = [callers EXCEPT ![c].wake = "timeout"]
     /\ UNCHANGED <<now, socks, cur, closing, closedF, secureF, shutdownF, lock, ref, tasks, hosts, descr, failed,
-                   nxUsed, attempts, userClosed, subsOk>>
+                   nxUsed, attempts, userClosed, subsOk, authEnded>>
 CallerCancel(c) ==      \* the caller's own cancellation / outer timeout: must not touch the connector (shield)
     /\ callers[c].pc = "wait" /\ callers[c].kind \in {"ensure", "pens"}
     /\ callers' = [callers EXCEPT ![c].wake = "ccancel"]
     /\ UNCHANGED <<now, socks, cur, closing, closedF, secureF, shutdownF, lock, ref, tasks, hosts, descr, failed,
-                   nxUsed, attempts, userClosed, subsOk>>
+                   nxUsed, attempts, userClosed, subsOk, authEnded>>
 \* the harness consumed the result; the caller id can be used again
 CallerReturn(c) ==
     /\ callers[c].pc = "done"
     /\ callers' = [callers EXCEPT ![c] = IdleCaller]
     /\ UNCHANGED <<now, socks, cur, closing, closedF, secureF, shutdownF, lock, ref, tasks, hosts, descr, failed,
-                   nxUsed, attempts, userClosed, subsOk>>
+                   nxUsed, attempts, userClosed, subsOk, authEnded>>
 
 \* connection.reconnect_soon()
 ReconnectSoonS(S) ==
@@ -419,7 +419,7 @@ CloseYield(c) ==       \* IpPairing.close(): await asyncio.sleep(0)
     /\ callers[c].kind = "close" /\ callers[c].pc = "yield"
     /\ callers' = [callers EXCEPT ![c] = Returned("close", "ok")]
     /\ UNCHANGED <<now, socks, cur, closing, closedF, secureF, shutdownF, lock, ref, tasks, hosts, descr, failed,
-                   nxUsed, attempts, userClosed, subsOk>>
+                   nxUsed, attempts, userClosed, subsOk, authEnded>>
 
 \* ------------------------------------------------------------------ time
 Deadlines == {tasks[t].dl : t \in {u \in TaskIds : TaskTimerDue(u)}} \cup
@@ -444,7 +444,7 @@ Init ==
     /\ now = 0 /\ socks = << >> /\ cur = 0 /\ closing = FALSE /\ closedF = FALSE /\ secureF = FALSE
     /\ shutdownF = FALSE /\ lock = FALSE /\ ref = 0 /\ tasks = [t \in TaskIds |-> DeadTask]
     /\ hosts = InitHosts /\ descr = {} /\ failed = {} /\ nxUsed = {}
-    /\ callers = [c \in Callers |-> IdleCaller] /\ attempts = 0 /\ userClosed = "open" /\ subsOk = TRUE
+    /\ callers = [c \in Callers |-> IdleCaller] /\ attempts = 0 /\ userClosed = "open" /\ subsOk = TRUE /\ authEnded = FALSE
 
 Internal ==
     \/ \E t \in TaskIds : TaskRun(t) \/ TaskTimer(t)
@@ -500,12 +500,16 @@ NextAddressOnce == nxUsed \subseteq failed
 PendingLoss == \E s \in Socks : socks[s].cc /\ ~socks[s].lostRun
 UnreadLoss == \E s \in Socks : ~socks[s].cc /\ socks[s].a2c # << >>
 NotStuck ==
-    (/\ userClosed = "open" /\ subsOk = TRUE /\ ~shutdownF /\ attempts > 0
+    (/\ userClosed = "open" /\ subsOk = TRUE /\ authEnded = FALSE /\ ~shutdownF /\ attempts > 0
      /\ ~\E c \in Callers : callers[c].kind = "close" /\ callers[c].pc = "wait"
      /\ ~Connected(St)
      /\ LiveTasks = {}
      /\ ~PendingLoss /\ ~UnreadLoss)
     => (ref # 0 /\ tasks[ref].pc = "auth")
+\* an authentication failure ends the retries: nothing runs until an explicit trigger (ensure / reconnect_soon /
+\* description update) asks again
+\* (authEnded is a history variable: set when a connector ends with the authentication error, cleared by a trigger)
+AuthEndsRetries == authEnded => LiveTasks = {}
 \* after shutdown has completed nothing ever attempts again
 NoAttemptAfterShutdown ==
     (shutdownF /\ \A c \in Callers : callers[c].kind = "close" => callers[c].pc \in {"done", "idle"}) => LiveTasks = {}
